@@ -232,6 +232,15 @@ pub fn check_type_in_messages(ctx: &mut Ctx, c: u8, m: u16, huge: bool) {
                 out.push((format!("write_into() with a {body}-byte body"), dest[..2].to_vec()));
             }
         }
+        // the built message decodes back, through the header decoder and the full parser
+        {
+            let bytes = Message::builder(mt, tid).build();
+            let h = MessageHeader::from_bytes(&bytes).map(|h| (class_num(h.get_type().class()), h.get_type().method())).map_err(|e| format!("{e:?}"));
+            let f = Message::from_bytes(&bytes).map(|m| (class_num(m.class()), m.method())).map_err(|e| format!("{e:?}"));
+            if h != Ok((c, m)) || f != Ok((c, m)) {
+                out.push((format!("PARSE header {h:?} message {f:?}"), vec![0xff, 0xff]));
+            }
+        }
         // responses derived from the parsed request
         let mut derived: Vec<(&'static str, Option<(u8, u16, Vec<u8>)>)> = vec![];
         if c == 0 {
@@ -250,6 +259,10 @@ pub fn check_type_in_messages(ctx: &mut Ctx, c: u8, m: u16, huge: bool) {
         Err(p) => ctx.violation("C19", "type-encode-no-panic", "MessageBuilder::build", "", wit, "bytes".into(), format!("panic {} at {}", p.msg, p.loc)),
         Ok((out, derived)) => {
             for (how, got) in out {
+                if how.starts_with("PARSE") {
+                    ctx.violation("C19", "type-roundtrip", "Message::from_bytes", "built-message", wit, format!("class {c} method {m:#x} from the header decoder and the parser"), how);
+                    break;
+                }
                 if got != wb {
                     ctx.violation("C19", "type-field-in-message", "MessageBuilder::{build,write_into}", if how.contains("byte body") && !how.contains(" 4-byte") { "large-body" } else { "" }, wit, format!("{:04x} in bytes 0..2 ({how})", want), hex(&got));
                     break;
@@ -452,7 +465,9 @@ pub fn run(ctx: &mut Ctx) {
     ctx.count_n("tid_random", n);
 
     // ---- generated ids fit in 96 bits ----
-    let g = ctx.n(500_000, 5_000_000);
+    // at least 2^16 + a few thousand calls on this one thread (a per-thread sequence counter folded
+    // into the id would wrap into the bits above 96 only after 65 536 calls)
+    let g = ctx.n(500_000, 5_000_000).max(70_000);
     let mut distinct_gen = std::collections::HashSet::new();
     for _ in 0..g {
         ctx.eval();
@@ -471,6 +486,21 @@ pub fn run(ctx: &mut Ctx) {
                 }
                 if distinct_gen.len() < 100_000 {
                     distinct_gen.insert(v);
+                }
+                // every 4096th: the id of a generated request is what the wire carries and the parser reads back
+                if distinct_gen.len() % 4096 == 1 {
+                    let ok = guard(|| {
+                        let b = Message::builder_request(1);
+                        let want = u128::from(b.transaction_id());
+                        let bytes = b.build();
+                        let got = Message::from_bytes(&bytes).ok().map(|m| u128::from(m.transaction_id()));
+                        (want, got)
+                    });
+                    if let Ok((want, got)) = ok {
+                        if got != Some(want) || want >> 96 != 0 {
+                            ctx.violation("C19", "tid-readback", "Message::builder_request", "generated-id", || json!({"kind": "generate", "value": format!("{want:x}")}), format!("{want:x} (< 2^96) read back"), format!("{got:x?}"));
+                        }
+                    }
                 }
             }
             Err(p) => ctx.violation(
